@@ -29,6 +29,7 @@ func init() {
 		Explain: "Decides reply correlation and stream well-formedness structurally: every responseHeader built anywhere in the agent package takes Seq from the handler's seq parameter (which at every call site is the request header's Seq) or from a stream's seq field (written only by its constructor from the seq argument); an event stream enqueues an event only behind some filter's Invoke(e)==true, non-blockingly, and has one consumer goroutine; a query stream emits an ack/response record only for a value actually received from the query's channels (receives from closable channels are comma-ok with the not-ok edge leaving the case without emitting), builds records only from received values, and sends the completion record only from the timer case, after which it returns.",
 		Run: runC25,
 		Mutants: []Mutant{
+			{Name: "request-header-reused", File: "cmd/serf/command/agent/ipc.go", Func: "func (i *AgentIPC) handleClient(", Old: "\tfor {\n", New: "\tvar reqHeader requestHeader\n\tfor {\n", Old2: "\t\tvar reqHeader requestHeader\n", New2: "", Expect: "R5"},
 			{Name: "reply-with-zero-seq", File: "cmd/serf/command/agent/ipc.go", Func: "func (i *AgentIPC) handleStats(", Old: "\t\tSeq:   seq,\n", New: "\t\tSeq:   0,\n", Expect: "R1"},
 			{Name: "stream-seq-from-counter", File: "cmd/serf/command/agent/ipc_query_response_stream.go", Func: "func newQueryResponseStream(", Old: "\t\tseq:    seq,\n", New: "\t\tseq:    seq + 1,\n", Expect: "R1"},
 			{Name: "event-stream-ignores-filter", File: "cmd/serf/command/agent/ipc_event_stream.go", Func: "func (es *eventStream) HandleEvent(", Old: "\treturn\n\n\t// Do a non-blocking send\n", New: "\tif e.EventType() != serf.EventQuery {\n\t\treturn\n\t}\n\n\t// Do a non-blocking send\n", Expect: "R2"},
@@ -293,6 +294,10 @@ func runC25(c *an.Ctx) {
 	c.Rule("R2 event stream: enqueue behind some filter's Invoke(e)==true, non-blocking; one consumer goroutine per stream")
 	c.Rule("R3 closed-channel discipline: ack/response records are emitted only behind receive-ok of the query's channels")
 	c.Rule("R4 completion record only from the timer case, followed by return; records are built from received values")
+	c.Rule("R5 the request header is decoded into a fresh value for every request (the decoder leaves absent fields untouched: a reused header answers a request that omits Seq with the previous request's number and re-runs the previous command when Command is omitted)")
+	if hc := am(c, "R5", "AgentIPC", "handleClient"); hc != nil {
+		c.Floor("R5", "request-header decode sites", decodeTargetsFresh(c, "R5", []*ssa.Function{hc}), 1)
+	}
 	d := &discharger{c: c}
 	n := 0
 	for _, fn := range c.P.FuncsIn(agent) {
